@@ -564,3 +564,39 @@ val opt_inter : pset option -> pset option -> pset option
 val stmt_prot : stmt -> pset -> pset option * bool
 
 val guarded : program -> bool
+
+val value_eqb : value -> value -> bool
+
+val st_eqb : nat list -> store0 -> store0 -> bool
+
+val st_mem : nat list -> store0 -> store0 list -> bool
+
+val st_add : nat list -> store0 -> store0 list -> store0 list
+
+val st_union : nat list -> store0 list -> store0 list -> store0 list
+
+val st_subset : nat list -> store0 list -> store0 list -> bool
+
+val hvals : store0 -> atom_e -> value list
+
+val hcond : store0 -> cond -> bool list
+
+val assign_all : nat list -> store0 -> var -> value list -> store0 list
+
+type hres = { h_norm : store0 list; h_bad : bool }
+
+val hloop :
+  nat list -> (store0 list -> hres option) -> cond -> nat -> store0 list ->
+  (store0 list * bool) option
+
+val hreach : nat list -> nat -> stmt -> store0 list -> hres option
+
+val lvar : var -> nat list
+
+val latom : atom_e -> nat list
+
+val lcond : cond -> nat list
+
+val lstmt : stmt -> nat list
+
+val infer_sem : nat -> func -> bool
